@@ -342,3 +342,36 @@ Proof.
   - apply is_spanic_eq. vm_compute. reflexivity.
   - apply is_sok_eq. vm_compute. reflexivity.
 Qed.
+
+(* ---- the hypotheses together are satisfiable ------------------------------------------------------------------------------------------------ *)
+(* Z/l again, but with a LENIENT decompress (any 32 bytes, reduced modulo l - as dalek's decompress reduces y modulo p); accepted
+   keys are still the canonical encodings, because pk_from_slice re-compresses.  It satisfies the laws and decodes H_bytes. *)
+Definition toyH_ops : EdOps := {|
+  point := Z;
+  pzero := 0;
+  padd := fun a b => (a + b) mod ell;
+  pneg := fun a => (- a) mod ell;
+  smul := fun k a => (k * a) mod ell;
+  G := 1;
+  compress := fun a => z2le 32 a;
+  decompress := fun b => if Nat.eqb (List.length b) 32 then Some (le2z b mod ell) else None;
+  peqb := Z.eqb;
+  valid := fun a => 0 <= a < ell;
+  tors := fun _ => 0
+|}.
+
+Lemma toyH_laws : EdLaws toyH_ops.
+Proof.
+  pose proof ell_lt as Hl. pose proof toy_laws as L. destruct L.
+  constructor; try assumption; cbn [point compress decompress valid toyH_ops].
+  - intros P HP. rewrite z2le_length, le2z_z2le32 by lia. cbn [Nat.eqb]. now rewrite Z.mod_small.
+  - intros b P. destruct (Nat.eqb _ _); [|discriminate]. intros H. injection H as <-. apply Z.mod_pos_bound. lia.
+Qed.
+
+Lemma scan_hyps_satisfiable :
+  exists (E : EdOps) (LW : EdLaws E) (S : bytes), @pk_from_slice E S = Ok S /\ @H_decompresses E.
+Proof.
+  exists toyH_ops, toyH_laws, (@compress toyH_ops (@G toyH_ops)). split.
+  - apply (@pk_from_slice_compress toyH_ops toyH_laws). apply (@valid_G toyH_ops toyH_laws).
+  - exists (le2z Ed25519.H_bytes mod ell). reflexivity.
+Qed.
